@@ -43,6 +43,9 @@ pub struct CoeServer {
     pub mode: UploadMode,
     pub mailbox_out_len: usize,
     out: Option<Vec<u8>>,
+    /// replies produced while the out mailbox was still full: a real device cannot overwrite a
+    /// mailbox the master has not read; they are handed out one by one as the mailbox is freed
+    out_queue: std::collections::VecDeque<Vec<u8>>,
     in_pending: bool,
     /// stale content left in the out mailbox before any request (delivered first)
     pub received: Vec<Received>,
@@ -86,6 +89,7 @@ impl CoeServer {
             mode: UploadMode::Auto,
             mailbox_out_len,
             out: None,
+            out_queue: Default::default(),
             in_pending: false,
             received: Vec::new(),
             downloads: Vec::new(),
@@ -134,7 +138,11 @@ impl CoeServer {
 
     fn reply(&mut self, content: Vec<u8>) {
         self.responses += 1;
-        self.out = Some(content);
+        if self.out.is_some() {
+            self.out_queue.push_back(content);
+        } else {
+            self.out = Some(content);
+        }
     }
 
     /// A complete write of the in mailbox.
@@ -299,6 +307,12 @@ impl CoeServer {
 
     /// Called by the device when the out mailbox was read: push the next SDO-info fragment.
     pub fn after_taken(&mut self) {
+        if self.out.is_none() {
+            if let Some(next) = self.out_queue.pop_front() {
+                self.out = Some(next);
+                return;
+            }
+        }
         if let Some(r) = self.refill_after_taken.clone() {
             if self.out.is_none() && self.last_scripted.is_some() {
                 self.out = Some(r);
